@@ -103,9 +103,15 @@ func genAssocV(c *Ctx, nPairs int, withExtras bool, withConflicts bool, variant 
 		tuNamesVehicle := ap.expr == 0 || ap.expr == 2 || ap.expr == 3
 		vpNamesTrip := ap.expr == 1 || ap.expr == 2 || ap.expr == 4
 		// expr 5: both entities present, neither names the other: no association at all
+		var tuVD, vpVD **gtfsrt.VehicleDescriptor
 		if hasTU {
 			ap.tuStop = fmt.Sprintf("TS%d", i+1)
 			tu := &gtfsrt.TripUpdate{Trip: cloneTD(ap.td), StopTimeUpdate: []*gtfsrt.TripUpdate_StopTimeUpdate{{StopId: sp(ap.tuStop)}}}
+			if variant == 3 && c.Free(p+"trip_update_without_stop_time_updates", 2) == 1 {
+				tu.StopTimeUpdate = nil // a cancelled or just announced trip: it is the trip's own entity all the same
+				tu.Delay = cp32(120)
+				key.WriteString("tuWithoutStops ")
+			}
 			if ap.vd != nil && tuNamesVehicle {
 				tu.Vehicle = cloneVD(ap.vd)
 				if variant == 3 && ap.vdesc == 0 && ap.expr == 3 && c.Free(p+"trip_update_names_the_vehicle_by_id_only", 2) == 1 {
@@ -115,6 +121,9 @@ func genAssocV(c *Ctx, nPairs int, withExtras bool, withConflicts bool, variant 
 					tu.Vehicle = &gtfsrt.VehicleDescriptor{Id: ap.vd.Id}
 					key.WriteString("tuVehicleByIdOnly ")
 				}
+			}
+			if tu.Vehicle != nil {
+				tuVD = &tu.Vehicle
 			}
 			e := &gtfsrt.FeedEntity{Id: sp(fmt.Sprintf("tu%d", i+1)), TripUpdate: tu}
 			if bothKinds {
@@ -142,6 +151,25 @@ func genAssocV(c *Ctx, nPairs int, withExtras bool, withConflicts bool, variant 
 				vp.Vehicle = &gtfsrt.VehicleDescriptor{} // a descriptor without any field: still a vehicle without id
 			} else if ap.vdesc == 4 {
 				vp.Vehicle = &gtfsrt.VehicleDescriptor{Id: sp(""), Label: sp("")} // fields present but empty: still no id
+			}
+			if ap.vd != nil {
+				vpVD = &vp.Vehicle
+			}
+			if variant == 1 && tuVD != nil && vpVD != nil && ap.td.ScheduleRelationship == nil {
+				// an attribute of the vehicle that is not part of its identifier, stated by one of the two
+				// descriptors only (or differently): it is one vehicle all the same
+				acc, inacc := gtfsrt.VehicleDescriptor_WHEELCHAIR_ACCESSIBLE, gtfsrt.VehicleDescriptor_WHEELCHAIR_INACCESSIBLE
+				switch wa := c.Free(p+"wheelchair_accessible_stated_by", 4); wa {
+				case 1:
+					(*tuVD).WheelchairAccessible = &acc
+					key.WriteString("wheelchairOnTU ")
+				case 2:
+					(*vpVD).WheelchairAccessible = &acc
+					key.WriteString("wheelchairOnVP ")
+				case 3:
+					(*tuVD).WheelchairAccessible, (*vpVD).WheelchairAccessible = &acc, &inacc
+					key.WriteString("wheelchairDiffers ")
+				}
 			}
 			if variant == 1 || variant == 3 {
 				// optional fields of the position entity: what is reached through the links must be the
@@ -213,7 +241,11 @@ func genAssocV(c *Ctx, nPairs int, withExtras bool, withConflicts bool, variant 
 		key.WriteString("alertNamesAllPairs ")
 	}
 	if withConflicts {
-		switch c.Free("conflict", 4) {
+		switch c.Free("conflict", 5) {
+		case 4: // trip 1 also claimed by a position entity that names no vehicle at all
+			am.conflicts = true
+			ents = append(ents, &gtfsrt.FeedEntity{Id: sp("vp1d"), Vehicle: &gtfsrt.VehiclePosition{Trip: cloneTD(am.pairs[0].td), StopId: sp("NOBODY")}})
+			key.WriteString("tripClaimedByIdlessVehicle ")
 		case 1: // a second, different trip update for trip 1
 			am.conflicts = true
 			ents = append(ents, &gtfsrt.FeedEntity{Id: sp("tu1b"), TripUpdate: &gtfsrt.TripUpdate{Trip: cloneTD(am.pairs[0].td), StopTimeUpdate: []*gtfsrt.TripUpdate_StopTimeUpdate{{StopId: sp("OTHER")}}}})
@@ -465,17 +497,100 @@ func c04UnderFilter(c *Ctx) {
 	}
 }
 
+// c04AssignedTrain: under nycttrips an assigned trip names its train; the trip is reported by a
+// trip update and a vehicle position, each of which may already carry a vehicle descriptor of
+// its own (id, label, licence plate): the train is one vehicle, and trip and vehicle lead to
+// each other whichever entity comes first.
+func c04AssignedTrain(c *Ctx) {
+	opts := nyctOptCombos[c.Free("options", 4)]
+	ts := uint64(1700000000)
+	yes := true
+	td := func() *gtfsrt.TripDescriptor {
+		d := &gtfsrt.TripDescriptor{TripId: sp("012300_1..N03R"), RouteId: sp("1"), StartDate: sp("20231114")}
+		proto.SetExtension(d, gtfsrt.E_NyctTripDescriptor, &gtfsrt.NyctTripDescriptor{TrainId: sp("1N 0123+ SFT/242"), IsAssigned: &yes, Direction: gtfsrt.NyctTripDescriptor_NORTH.Enum()})
+		return d
+	}
+	own := func(label string) (*gtfsrt.VehicleDescriptor, string) {
+		switch c.Free(label, 5) {
+		case 1:
+			return &gtfsrt.VehicleDescriptor{Id: sp("car-1")}, "id"
+		case 2:
+			return &gtfsrt.VehicleDescriptor{Label: sp("car 5501")}, "label"
+		case 3:
+			return &gtfsrt.VehicleDescriptor{Id: sp("car-1"), Label: sp("car 5501")}, "id+label"
+		case 4:
+			return &gtfsrt.VehicleDescriptor{LicensePlate: sp("NY 123")}, "plate"
+		}
+		return nil, "none"
+	}
+	tuV, tuN := own("trip_update.own_vehicle_descriptor")
+	vpV, vpN := own("vehicle_position.own_vehicle_descriptor")
+	ents := []*gtfsrt.FeedEntity{
+		{Id: sp("tu"), TripUpdate: &gtfsrt.TripUpdate{Trip: td(), Vehicle: tuV, StopTimeUpdate: []*gtfsrt.TripUpdate_StopTimeUpdate{{StopId: sp("101N"), Arrival: &gtfsrt.TripUpdate_StopTimeEvent{Time: cp2(int64(ts) + 60)}}}}},
+		{Id: sp("vp"), Vehicle: &gtfsrt.VehiclePosition{Trip: td(), Vehicle: vpV, StopId: sp("101N"), Timestamp: u64p(ts - 5)}},
+	}
+	if c.Free("an_unrelated_vehicle", 2) == 1 {
+		ents = append(ents, &gtfsrt.FeedEntity{Id: sp("other"), Vehicle: &gtfsrt.VehiclePosition{Vehicle: &gtfsrt.VehicleDescriptor{Id: sp("car-1"), Label: sp("car 5501")}, StopId: sp("B3")}})
+	}
+	perm := c.Perm("order", len(ents))
+	m := newFeed(&ts)
+	for _, j := range perm {
+		m.Entity = append(m.Entity, ents[j])
+	}
+	b := marshalFeed(m)
+	desc := fmt.Sprintf("order=%s opts=%s trip update's own descriptor=%s vehicle position's own descriptor=%s", entityOrder(m), nyctOptName(opts), tuN, vpN)
+	c.Input(hash64(string(b)+nyctOptName(opts)), true, func() string { return desc })
+	r, err, ok := parseRT(c, b, &gtfs.ParseRealtimeOptions{Extension: nycttrips.Extension(opts)})
+	if !ok {
+		return
+	}
+	if err != nil {
+		c.Fail("valid-message-rejected", "%v", err)
+		return
+	}
+	c.Steps(len(ents))
+	c.Outcome(dumpRealtime(r, rtDumpOpts{links: true, sortVehicles: true}))
+	if len(r.Trips) != 1 {
+		c.Fail("trip-count:assigned-train", "%s: %d trips, the message has one", desc, len(r.Trips))
+		return
+	}
+	t := &r.Trips[0]
+	if t.Vehicle == nil {
+		c.Fail("trip.Vehicle-nil:assigned-train", "%s: the trip has no vehicle although it is assigned to a train", desc)
+		return
+	}
+	if t.Vehicle.Trip == nil || dumpTripID(t.Vehicle.Trip.ID) != dumpTripID(t.ID) {
+		c.Fail("vehicle.Trip-nil:assigned-train", "%s: Trip.Vehicle.Trip does not lead back to the trip", desc)
+	}
+	for k := range r.Vehicles {
+		v := &r.Vehicles[k]
+		if v.Trip == nil {
+			continue
+		}
+		if dumpTripID(v.Trip.ID) != dumpTripID(t.ID) || dumpTripBody(v.Trip) != dumpTripBody(t) {
+			c.Fail("stale-copy:assigned-train", "%s: Vehicles[%d].Trip is not the content of Trips[0]", desc, k)
+		}
+		if v.Trip.Vehicle == nil || dumpVehicleID(v.Trip.Vehicle.ID) != dumpVehicleID(v.ID) || dumpVehicleBody(v.Trip.Vehicle) != dumpVehicleBody(v) {
+			c.Fail("links-not-mutual:assigned-train", "%s: Vehicles[%d] %s has the trip, but the trip's vehicle is %s: the references do not lead to each other", desc, k, dumpVehicleID(v.ID), dumpVehicleID(t.Vehicle.ID))
+		}
+	}
+	if tuV != nil || vpV != nil {
+		c.Witness("assigned_train_next_to_own_descriptor")
+	}
+}
+
 func init() {
 	register(&Check{
 		ID:    "C04",
 		Level: "model_checking",
-		Rule: "a vehicle position that alone associates V1 with T2, next to a stale trip update the nycttrips filter drops, in all 24 orders x 4 option sets; full product: 2 pairs optionally with an alert naming the trips of both, optionally sharing one trip_id (start dates differ); 1 pair whose trip descriptor carries every schedule relationship, which may be expressed by ONE entity carrying both kinds, whose vehicle position carries 4 sets of optional fields (current_stop_sequence without current_status, ...) and whose entities may be flagged is_deleted (unset, SCHEDULED, ADDED, UNSCHEDULED, CANCELED, REPLACEMENT, DUPLICATED, DELETED); 1 pair (+ optional unrelated trip, unrelated vehicle, alert mentioning the trip, alert naming two new trips), each optionally preceded in the same process by the parse of a conflicting message about the same ids and 2 pairs; association expressed by {TU, VP, both} x vehicle descriptor {id, label only, none, present but empty} x trip descriptor {trip id, route+direction+start}; all n! entity orders (n<=5); all map rotations at every library range; thorough adds 2 pairs with extras; " +
+		Rule: "an assigned NYCT trip reported by a trip update and a vehicle position, each with {no, id, label, id+label, licence plate} vehicle descriptor of its own, optionally next to an unrelated vehicle with that descriptor, all orders x 4 option sets; a vehicle position that alone associates V1 with T2, next to a stale trip update the nycttrips filter drops, in all 24 orders x 4 option sets; full product: 2 pairs optionally with an alert naming the trips of both, optionally sharing one trip_id (start dates differ); 1 pair whose trip descriptor carries every schedule relationship, which may be expressed by ONE entity carrying both kinds, whose two vehicle descriptors may disagree on wheelchair_accessible (stated by neither, one, or both differently), whose vehicle position carries 4 sets of optional fields (current_stop_sequence without current_status, ...) and whose entities may be flagged is_deleted (unset, SCHEDULED, ADDED, UNSCHEDULED, CANCELED, REPLACEMENT, DUPLICATED, DELETED); 1 pair (+ optional unrelated trip, unrelated vehicle, alert mentioning the trip, alert naming two new trips), each optionally preceded in the same process by the parse of a conflicting message about the same ids and 2 pairs; association expressed by {TU, VP, both} x vehicle descriptor {id, label only, none, present but empty} x trip descriptor {trip id, route+direction+start}; all n! entity orders (n<=5); all map rotations at every library range; thorough adds 2 pairs with extras; " +
 			"non-trivial = every distinct message; oracle = link invariants on the real result",
 		Assumptions: []string{"entries are located by identifier, id-less vehicles by the stop id of their position entity"},
 		Scenarios: func(tier string) []*Scenario {
 			s := []*Scenario{{Name: "one-pair+extras", Bound: -1, Run: c04Harness(1, true)}, {Name: "two-pairs", Bound: -1, Run: c04HarnessV(2, false, 2)},
 				{Name: "one-pair-with-schedule-relationships", Bound: -1, Run: c04HarnessV(1, false, 1)},
-				{Name: "association-next-to-a-filtered-entity", Bound: -1, Run: c04UnderFilter}}
+				{Name: "association-next-to-a-filtered-entity", Bound: -1, Run: c04UnderFilter},
+				{Name: "assigned-train-with-own-descriptors", Bound: -1, Run: c04AssignedTrain}}
 			if tier == "thorough" {
 				s = append(s, &Scenario{Name: "two-pairs+extras", Bound: -1, Run: c04Harness(2, true)}, &Scenario{Name: "three-pairs", Bound: -1, Run: c04Harness(3, false)})
 			}
